@@ -33,7 +33,8 @@ fn read_all(wire: Vec<u8>, size: usize) -> (Vec<u8>, bool) {
 /// C06: payloads x codings x header spellings x framings x read sizes decode exactly; every truncation and every trailer bit
 /// flip is an error and what was delivered before is a prefix of the payload
 #[test]
-fn vp_native_decoding_and_damage() {
+fn vp_native_decoding_and_damage() { crate::verif_native_watchdog::watched(vp_native_decoding_and_damage_body); }
+fn vp_native_decoding_and_damage_body() {
     let payloads: Vec<Vec<u8>> = vec![vec![], b"hello world".to_vec(), (0..3000u32).map(|i| (i * 31 % 251) as u8).collect(), vec![b'a'; 70000]];
     let mut cases = 0u64;
     for p in &payloads {
